@@ -65,7 +65,9 @@ def run(ctx):
     def chain_cfg(summ):
         names = summ["names"]
         n, h = summ["chain"], summ["maxhops"]
-        links = [[names[i], names[i + 1]] for i in range(n - 1)] + [sorted([names[min(h, n - 1)], names[n]])]
+        links = [[names[i], names[i + 1]] for i in range(n - 1)] + [sorted([names[min(h, n - 1)], names[n]]),
+                                                                    sorted([names[max(h - 1, 0)], names[n + 1]]),
+                                                                    sorted([names[n + 1], names[n + 2]])]
         return dict(F.TRACE_CFG, agents=names, links=links, announcers=names)
     chain = F.traces(ctx, "TestZZVFloodChain", {"ZZV_CHAIN": 260, "ZZV_CHAIN_HOPS": 255}, "c15chain", invs=CHAIN_INVS, tcfg=chain_cfg)
     chains = [chain]
